@@ -371,6 +371,19 @@ def gen_task(rng, lm, cfg, force_n=None):
         if r2 < 0.55:   cores = free[:cpr]                       # first free cores
         elif r2 < 0.85: cores = sorted(rng.sample(free, cpr))    # holes: other tasks hold the cores between
         else:           cores = rng.sample(free, cpr)            # ... in any order (placements supplied by the application)
+        if cpr >= 3 and rng.random() < 0.12:
+            # ... an order in which first and last entry span exactly as many indices as the list is long although the
+            # cores are no contiguous block ([0, 5, 2, 3]): must not be abbreviated as a range
+            starts = [a for a in free if a + cpr - 1 in free]
+            if starts:
+                a = rng.choice(starts)
+                rest = [c for c in free if c not in (a, a + cpr - 1)]
+                outside = [c for c in rest if not a < c < a + cpr - 1]
+                if outside and len(rest) >= cpr - 2:
+                    mid = [rng.choice(outside)]
+                    mid += rng.sample([c for c in rest if c not in mid], cpr - 3)
+                    rng.shuffle(mid)
+                    cores = [a] + mid + [a + cpr - 1]
         used[cur].update(cores)
         slots.append({'host': cur, 'node': cur, 'cores': cores, 'gpus': [0] if rng.random() < 0.2 else []})
     if rng.random() < 0.7:
